@@ -1,5 +1,4 @@
 CONSTANTS
-  Mode = "conc"
   Ns = {0}
   BigQs = {}
   IncMax = 0
@@ -7,7 +6,7 @@ CONSTANTS
   Callers = {"a", "b"}
   IncsPer = 1
   Reads = 1
-  Start = {0, 7, 8}
+  Start = {8}
   Alg = "pinned"
   Locked = FALSE
 SPECIFICATION SpecConc
